@@ -116,9 +116,13 @@ func RunC03(c *Ctx) error {
 		r := prng.Sub(c.Seed, "c03/"+gr.ID, 0)
 		var jobs []harness.Job
 		for _, v := range drv.Variants {
-			for si := 0; si < nSent; si++ {
+			ns := nSent
+			if gr.Heavy {
+				ns = 5 * nSent // hundreds of alternatives: many long sentences, so that every one of them is used
+			}
+			for si := 0; si < ns; si++ {
 				budget := 2 + r.Intn(9)
-				if si%6 == 5 {
+				if si%6 == 5 || gr.Heavy {
 					budget = 12 + r.Intn(30) // deep
 				}
 				s := gr.Derive(r.Fork("s"), budget)
